@@ -525,7 +525,10 @@ def _build_eval_tree(
                     result = EvalTreeNode(left=right, operator=current_token)
             else:
                 raise DefinitionSyntaxError(f"unknown operator '{token_text}'")
-        elif token_type == tokenlib.STRING:
+        elif token_type == tokenlib.STRING or tokenlib.tok_name[token_type].startswith(
+            "FSTRING"
+        ):
+            # (Python 3.12 splits an f-string into FSTRING_START / _MIDDLE / _END)
             raise DefinitionSyntaxError(f"unexpected string {token_text}")
         elif token_type in (tokenlib.NUMBER, tokenlib.NAME):
             if result:
